@@ -169,6 +169,10 @@ v('c04r9-sort-keeps-cache', 'C04', 'C04-R9', 'src/matcher.go', "\t\tif request.s
 v('c13r8-build-outside-lock', 'C13', 'C13-R8', 'src/chunklist.go', "\tret := cl.lastChunk().push(cl.trans, data)\n\tcl.mutex.Unlock()\n\treturn ret\n", "\tchunk := cl.lastChunk()\n\tcl.mutex.Unlock()\n\treturn chunk.push(cl.trans, data)\n")
 v('c06r6-itemlines-alias', 'C06', 'C06-R6', 'src/terminal.go', "\t\ttext := make([]rune, item.text.Length())\n\t\tcopy(text, item.text.ToRunes())\n\t\treturn [][]rune{text}, false\n", "\t\treturn [][]rune{item.text.ToRunes()}, false\n")
 
+v('c15r8-mark-other-row', 'C15', 'C15-R8', 'src/terminal.go', "\t\tt.move(y, x, clear)\n\t\tt.markOtherLine(y)\n", "\t\tt.move(y, x, clear)\n\t\tt.markOtherLine(line)\n")
+v('c04r10-sort-from-pattern', 'C04', 'C04-R10', 'src/core.go', "matcher.sort = sort && pattern.sortable", "matcher.sort = pattern.sortable")
+v('c08r12-clear-only-on-reload', 'C08', 'C08-R12', 'src/matcher.go', "\t\t\tif request.revision != m.revision {\n", "\t\t\tm.revision = request.revision\n\t\t\tif !request.revision.compatible(m.revision) {\n")
+
 # ---- benign edits (must stay silent)
 b('rename-previousInput', ['C08', 'C09'], 'src/terminal.go', 'previousInput', 'inputBefore', count=0)
 b('rename-leftover', ['C06'], 'src/reader.go', 'leftover', 'carry', count=0)
@@ -209,6 +213,12 @@ b('history-current-rename', ['C18'], 'src/history.go', "\tif str, prs := h.modif
 b('awk-white-order', ['C10'], 'src/tokenizer.go', "white := r == 9 || r == 32", "white := r == 32 || r == 9")
 b('proxy-remove-order', ['C14'], 'src/proxy.go', "\t\t\t\tos.Remove(temp)\n\t\t\t\tos.Remove(input)\n\t\t\t\tos.Remove(output)\n", "\t\t\t\tos.Remove(output)\n\t\t\t\tos.Remove(input)\n\t\t\t\tos.Remove(temp)\n")
 b('reset-seq-first', ['C08'], 'src/matcher.go', "\tpattern := m.patternBuilder(patternRunes)\n\n\tvar event util.EventType\n\tif cancel {\n\t\tevent = reqReset\n\t} else {\n\t\tevent = reqRetry\n\t}\n\tm.reqSeq++\n", "\tm.reqSeq++\n\tpattern := m.patternBuilder(patternRunes)\n\n\tvar event util.EventType\n\tif cancel {\n\t\tevent = reqReset\n\t} else {\n\t\tevent = reqRetry\n\t}\n")
+
+b('matcher-revision-after-clear', ['C08', 'C04', 'C13', 'C05'], 'src/matcher.go', "\t\t\t\tm.cache.Clear()\n\t\t\t\tm.revision = request.revision\n\t\t\t}\n", "\t\t\t\tm.cache.Clear()\n\t\t\t}\n\t\t\tm.revision = request.revision\n")
+b('dumpstatus-max-args', ['C16'], 'src/terminal.go', "matches := make([]StatusItem, util.Max(0, util.Min(params.limit, t.merger.Length()-params.offset)))", "matches := make([]StatusItem, util.Max(util.Min(params.limit, t.merger.Length()-params.offset), 0))")
+b('alt-unescape-order', ['C17'], 'src/options.go', "\t\t\t\tcase escapedColon:\n\t\t\t\t\tr = ':'\n\t\t\t\tcase escapedComma:\n\t\t\t\t\tr = ','\n", "\t\t\t\tcase escapedComma:\n\t\t\t\t\tr = ','\n\t\t\t\tcase escapedColon:\n\t\t\t\t\tr = ':'\n")
+b('preview-flags-or', ['C12', 'C20'], 'src/terminal.go', "\t\tif flags.plus {\n\t\t\tplus = true\n\t\t}\n", "\t\tplus = plus || flags.plus\n")
+b('equals-field-order', ['C11'], 'src/ansi.go', "return s.fg == t.fg && s.bg == t.bg && s.attr == t.attr && s.lbg == t.lbg && s.url == t.url", "return s.url == t.url && s.lbg == t.lbg && s.attr == t.attr && s.bg == t.bg && s.fg == t.fg")
 
 def build(entries, outdir, kind):
     """One persistent scratch worktree per worker (same path for every variant, so the Go build cache hits);
